@@ -10,8 +10,8 @@ static std::string det(const dom::TADomain& D, const ref::TA& A, const std::stri
   return D.str(A) + " | " + extra + "\n--- A (timbuk)\n" + dom::timbuk(A, D.sig, "A");
 }
 
-static void c03Body(Env& env, const std::string& stage, int n, const dom::Alphabet& sig, int k) {
-  auto D = std::make_shared<dom::TADomain>(n, sig, k);
+static void c03Body(Env& env, const std::string& stage, int n, const dom::Alphabet& sig, int k, bool leafOnly = false) {
+  auto D = std::make_shared<dom::TADomain>(n, sig, k, true, leafOnly);
   dom::forEachTA(env, stage, D, [D](const ref::TA& A, size_t idx, Ctx& c) {
     c.evals(); uint64_t w = A.rules.size();
     auto reach = ref::reachableTopDown(A), own = A.owners(), use = ref::useful(A); bool empty = ref::emptyLang(A);
@@ -106,8 +106,8 @@ static void c05Body(Env& env, const std::string& stage, int n, const dom::Alphab
 }
 
 // C15 witness
-static void c15Body(Env& env, const std::string& stage, int n, const dom::Alphabet& sig, int k) {
-  auto D = std::make_shared<dom::TADomain>(n, sig, k);
+static void c15Body(Env& env, const std::string& stage, int n, const dom::Alphabet& sig, int k, bool leafOnly = false) {
+  auto D = std::make_shared<dom::TADomain>(n, sig, k, !leafOnly, leafOnly);
   dom::forEachTA(env, stage, D, [D](const ref::TA& A, size_t idx, Ctx& c) {
     c.evals(); uint64_t w = A.rules.size(); bool empty = ref::emptyLang(A);
     if (!empty) c.nontrivial(); c.count(empty ? "lang_empty" : "lang_nonempty");
@@ -149,4 +149,8 @@ static Register d3("c15.n2s3k6", "C15", "all of TA(2,{a:0,b:0,f:1,g:2},<=6 rules
 static Register d4("c15.n3s3pk5", "C15", "all of TA(3,{a:0,f:1,g:2},<=5 rules)", [](Env& e) { c15Body(e, "c15.n3s3pk5", 3, dom::Sigma3p(), 5); });
 static Register d5("c15.n2s3k7", "C15", "all of TA(2,{a:0,b:0,f:1,g:2},<=7 rules)", [](Env& e) { c15Body(e, "c15.n2s3k7", 2, dom::Sigma3(), 7); });
 static Register d6("c15.n4agk4", "C15", "all of TA(4,{a:0,g:2},<=4 rules)", [](Env& e) { c15Body(e, "c15.n4agk4", 4, dom::SigmaAG(), 4); });
+static Register d7("c15.n4afhk3", "C15", "all members of TA(4,{a:0,f:1,h:3},<=3 rules) with >=1 leaf rule and >=1 final state (ternary rules with repeated children)", [](Env& e) { c15Body(e, "c15.n4afhk3", 4, dom::SigmaAFH(), 3, true); });
+static Register d8("c15.n3afhk3", "C15", "all of TA(3,{a:0,f:1,h:3},<=3 rules)", [](Env& e) { c15Body(e, "c15.n3afhk3", 3, dom::SigmaAFH(), 3); });
+static Register a7("c03.n3afhk3", "C03", "all of TA(3,{a:0,f:1,h:3},<=3 rules) (ternary rules with repeated children)", [](Env& e) { c03Body(e, "c03.n3afhk3", 3, dom::SigmaAFH(), 3); });
+static Register a8("c03.n4afhk3", "C03", "all members of TA(4,{a:0,f:1,h:3},<=3 rules) with >=1 leaf rule", [](Env& e) { c03Body(e, "c03.n4afhk3", 4, dom::SigmaAFH(), 3, true); });
 }  // namespace c03
